@@ -199,7 +199,7 @@ class Job:
             r.update(kind="mc", name=self.name, records=0, samples=[])
         else:
             tr = os.path.join(cache_dir, self.name + ".ndjson")
-            args = [a.replace("{seed}", str(seed)) for a in self.gen]
+            args = [re.sub(r"\{seed(\+(\d+))?\}", lambda m: str(seed + int(m.group(2) or 0)), a) for a in self.gen]
             info = gen_trace(args, tr)
             r = run_tlc(self.name, self.module + ".tla", self.cfg or (self.module + ".cfg"), workers=1, env={"TRACE": tr}, accel=self.accel, mem=self.mem,
                         timeout=self.timeout)
